@@ -214,10 +214,7 @@ def binaryOpDs {α} (nan : α) (f : α → α → α) (self : Ds α) (rhs : Oper
       let r ← operationNd f kv1.2 { shape := [], get := fun _ => c } false
       setItem res kv1.1 r) {}
   | .ds o => do
-    -- align all axes first
-    if axesNe o.axes self.axes then
-      let _ ← reindexLikeDs nan o self.axes
-    -- now proceed to operation
+    -- proceed to operation (each variable's operation aligns its operands' axes)
     self.vars.foldlM (fun (res : Ds α) kv1 =>
       o.vars.foldlM (fun (res : Ds α) kv2 =>
         if kv1.1 == kv2.1 then do
